@@ -17,15 +17,23 @@ package req
 //@   loop 0:
 //@     invariant sameArray(bNext, buf) && off(bNext) >= off(buf) && off(bNext) + len(bNext) == off(buf) + len(buf)
 
+// C01 (framing decision): once a Transfer-Encoding other than identity has made the message chunked (length -1),
+// no later header field changes that: a Content-Length field is looked at only while the length is not -1.
+// phChunked: InitContentLengthWithValue(-1) has been called in this parse.
+//@ ghost var phChunked bool
 //@ func parseHeaders(h, buf) n, err
 //@   props C03, C01
 //@   requires h != nil
-//@   modifies *
+//@   modifies *, phChunked
+//@   ghostset-at-entry phChunked = false
+//@   assert @C01 before InitContentLengthWithValue!: arg1 == -1 || !phChunked
+//@   ghostset after InitContentLengthWithValue!: phChunked = phChunked || arg1 == -1
+//@   top-ensures @C01 phChunked && err == nil ==> h.contentLength == -1
 //@   ensures h.disableNormalizing == old(h.disableNormalizing)
 //@   ghostset-at-entry parseArr = arr(buf)
 //@   ensures err == nil ==> 0 <= n && n <= len(buf)
 //@   loop 0:
-//@     invariant hsInv(s) && s.HLen + len(s.B) <= len(buf) && arr(s.B) == parseArr && h.disableNormalizing == old(h.disableNormalizing)
+//@     invariant hsInv(s) && s.HLen + len(s.B) <= len(buf) && arr(s.B) == parseArr && h.disableNormalizing == old(h.disableNormalizing) && (phChunked ==> h.contentLength == -1)
 
 // C02: the header scanner runs only after ReadRawHeaders found the block complete.
 //@ func parse(h, buf) n, err
